@@ -501,7 +501,6 @@ var longProp = vp.Register(vp.Prop[Case]{
 	Check: checkHistory,
 })
 
-
 // TestConcurrent (variant "conc", -race): the sequential oracle from 8
 // goroutines at once, each on its own objects; objects of one type must not
 // share mutable state.
